@@ -940,6 +940,163 @@ def gen_asm_frames():
                + ";\n   ".join(row(r) for r in rows) + "].\n")
     out.append("(* " + ", ".join("%s: frame %d, %d accesses, max end %d" % (r[0], r[2], len(r[5]), max([a + w for a, w in r[5]] or [0]))
                                  for r in rows) + " *)\n")
+    out.append(gen_asm_frames_win())
+    return "".join(out)
+
+
+ASM_FILES_WIN = ["c/blake3_sse2_x86-64_windows_gnu.S", "c/blake3_sse41_x86-64_windows_gnu.S",
+                 "c/blake3_avx2_x86-64_windows_gnu.S", "c/blake3_avx512_x86-64_windows_gnu.S"]
+_WIN_CALLEE = dict(_CALLEE_SAVED)
+for _r, _names in (("rsi", ("rsi", "esi", "si", "sil")), ("rdi", ("rdi", "edi", "di", "dil"))):
+    for _n in _names:
+        _WIN_CALLEE[_n] = _r
+_WIN_REGCODE = {"rbx": 0, "rbp": 1, "r12": 2, "r13": 3, "r14": 4, "r15": 5, "rsi": 6, "rdi": 7}
+
+
+def _asm_functions(rel):
+    """[(name, [instruction lines])] of one GAS/Intel-syntax file"""
+    text = src(rel)
+    funcs, cur = [], None
+    for raw in text.split("\n"):
+        l = raw.split("//")[0]
+        l = re.sub(r"/\*.*?\*/", " ", l).strip()
+        if not l or l.startswith("#"):
+            continue
+        if l.startswith("."):
+            if re.match(r"\.(section|static_data|rodata|data|bss)\b", l) and not re.match(r"\.section\s+\.text", l):
+                cur = None
+            continue
+        m = re.fullmatch(r"(_?)(blake3_\w+):", l)
+        if m:
+            name = m.group(2)
+            if cur is not None and cur[0] == name and not cur[1]:
+                continue
+            cur = (name, [])
+            funcs.append(cur)
+            continue
+        if cur is not None:
+            cur[1].append(re.sub(r"\s+", " ", l))
+    if not funcs:
+        raise AnchorError("%s: no function labels found" % rel)
+    return funcs
+
+
+def _split_ops(ops):
+    return [o.strip() for o in re.split(r",(?![^\[]*\])", ops)] if ops.strip() else []
+
+
+def gen_asm_frames_win():
+    """Windows-GNU assembly (Microsoft x64 convention: rbx rbp rsi rdi r12-r15 and xmm6-xmm15 are callee-saved).
+    Per function: pushes, pops, frame size, realigned?, the xmm save slots of the prologue [(reg, offset)], the restores
+    of the epilogue, the stores of the body to rsp-based addresses (offset, width), the callee-saved general registers
+    and the callee-saved xmm registers (6..15, also as ymm/zmm) that occur as a destination in the body."""
+    rows = []
+    for rel in ASM_FILES_WIN:
+        for name, body in _asm_functions(rel):
+            pushes, pops, saves, restores, stores, gw, xw = [], [], [], [], [], set(), set()
+            frame, realigned = 0, False
+            # classify lines
+            ins = []
+            for l in body:
+                if re.fullmatch(r"\d+:", l) or l.endswith(":"):
+                    continue
+                mm = re.fullmatch(r"(\w+) ?(.*)", l)
+                ins.append((mm.group(1).lower(), _split_ops(mm.group(2)), l))
+            # prologue: pushes, mov rbp rsp, sub rsp, and rsp, then the run of xmm saves
+            i = 0
+            while i < len(ins) and ins[i][0] == "push":
+                pushes.append(ins[i][1][0].lower())
+                i += 1
+            if i < len(ins) and ins[i][2].lower().replace(" ", "") == "movrbp,rsp":
+                i += 1
+            if i < len(ins) and ins[i][0] == "sub" and ins[i][1][0].lower() == "rsp":
+                frame = int(ins[i][1][1], 0)
+                i += 1
+            if i < len(ins) and ins[i][0] == "and" and ins[i][1][0].lower() == "rsp":
+                if ins[i][1][1].lower() != "0xffffffffffffffc0":
+                    raise AnchorError("%s: unexpected stack alignment %s" % (name, ins[i][2]))
+                realigned = True
+                i += 1
+            def slot(o):
+                mo = re.fullmatch(r"xmmword ptr \[rsp(?:\+(\w+))?\]", o.lower())
+                return None if not mo else (int(mo.group(1), 0) if mo.group(1) else 0)
+            def xreg(o):
+                mo = re.fullmatch(r"xmm(\d+)", o.lower())
+                return int(mo.group(1)) if mo else None
+            while i < len(ins) and ins[i][0] in ("movdqa", "vmovdqa", "movaps", "vmovaps") and len(ins[i][1]) == 2 \
+                    and slot(ins[i][1][0]) is not None and xreg(ins[i][1][1]) is not None and 6 <= xreg(ins[i][1][1]) <= 15:
+                saves.append((xreg(ins[i][1][1]), slot(ins[i][1][0])))
+                i += 1
+            body_start = i
+            # epilogue: from the end: ret, pops, (mov rsp,rbp | add rsp,N), the run of restores
+            j = len(ins) - 1
+            while j >= 0 and ins[j][0] != "ret":
+                j -= 1
+            if j < 0:
+                raise AnchorError("%s: no ret" % name)
+            if any(x[0] == "ret" for x in ins[:j]):
+                raise AnchorError("%s: more than one ret" % name)
+            j -= 1
+            rp = []
+            while j >= 0 and ins[j][0] == "pop":
+                rp.append(ins[j][1][0].lower())
+                j -= 1
+            pops = list(reversed(rp))
+            if j >= 0 and (ins[j][2].lower().replace(" ", "") == "movrsp,rbp" or
+                           (ins[j][0] == "add" and ins[j][1][0].lower() == "rsp" and int(ins[j][1][1], 0) == frame)):
+                j -= 1
+            elif frame:
+                raise AnchorError("%s: frame of %d bytes is not released before the pops" % (name, frame))
+            if j >= 0 and ins[j][0] == "vzeroupper":
+                j -= 1
+            rr = []
+            while j >= 0 and ins[j][0] in ("movdqa", "vmovdqa", "movaps", "vmovaps") and len(ins[j][1]) == 2 \
+                    and slot(ins[j][1][1]) is not None and xreg(ins[j][1][0]) is not None and 6 <= xreg(ins[j][1][0]) <= 15:
+                rr.append((xreg(ins[j][1][0]), slot(ins[j][1][1])))
+                j -= 1
+            restores = list(reversed(rr))
+            body_end = j + 1
+            if j >= 0 and ins[j][0] == "vzeroupper":
+                body_end = j
+            for mn, ops, l in ins[body_start:body_end]:
+                if mn in ("push", "pop", "ret") or (ops and ops[0].lower() == "rsp"):
+                    raise AnchorError("%s: stack pointer manipulation inside the body: %s" % (name, l))
+                if not ops:
+                    continue
+                d = ops[0].lower()
+                d = re.sub(r"\s*\{[^}]*\}", "", d).strip()      # masking suffixes
+                if mn not in _NO_WRITE:
+                    if d in _WIN_CALLEE:
+                        gw.add(_WIN_CALLEE[d])
+                    mo = re.fullmatch(r"[xyz]mm(\d+)", d)
+                    if mo and 6 <= int(mo.group(1)) <= 15:
+                        xw.add(int(mo.group(1)))
+                mo = re.search(r"(\w+) ptr \[rsp([^\]]*)\]", ops[0], re.I)
+                if mo and mn not in _NO_WRITE:
+                    if mo.group(1).lower() not in _PTR_WIDTH:
+                        raise AnchorError("%s: rsp store without size keyword: %s" % (name, l))
+                    rest = mo.group(2).replace(" ", "")
+                    if rest.startswith("-") or re.search(r"[a-z]", rest.replace("0x", "").replace("0X", "")):
+                        raise AnchorError("%s: unsupported rsp store address: %s" % (name, l))
+                    stores.append((_asm_num(rest.lstrip("+"), name) if rest else 0, _PTR_WIDTH[mo.group(1).lower()]))
+            for r in pushes + pops:
+                if r not in _WIN_REGCODE:
+                    raise AnchorError("%s: push/pop of %s" % (name, r))
+            rows.append((name, realigned, frame, [_WIN_REGCODE[r] for r in pushes], [_WIN_REGCODE[r] for r in pops],
+                         saves, restores, sorted(set(stores)), sorted(_WIN_REGCODE[r] for r in gw), sorted(xw)))
+    def pairs(ps):
+        return "[" + "; ".join("(%d, %d)" % p for p in ps) + "]"
+    def row(r):
+        name, re_, fr, pu, po, sv, rs, st, gwr, xwr = r
+        return "(%s, %s, %d, %s, %s,\n    %s, %s,\n    %s, %s, %s)" % (
+            coq_list(list(name.encode())), "true" if re_ else "false", fr, coq_list(pu), coq_list(po),
+            pairs(sv), pairs(rs), pairs(st), coq_list(gwr), coq_list(xwr))
+    out = ["\n(* Windows-GNU files: name, realigned?, frame, pushes, pops (codes 0 rbx 1 rbp 2 r12 3 r13 4 r14 5 r15 6 rsi 7 rdi),\n"
+           "   xmm saves (reg, offset), xmm restores, body stores to [rsp+off] (offset, width), callee-saved GPRs written,\n"
+           "   callee-saved xmm registers written *)\n"]
+    out.append("Definition asm_frames_win : list (list N * bool * N * list N * list N * list (N * N) * list (N * N) * "
+               "list (N * N) * list N * list N) :=\n  [" + ";\n   ".join(row(r) for r in rows) + "].\n")
+    out.append("(* " + ", ".join("%s: frame %d, saves xmm%s, writes xmm%s" % (r[0], r[2], [a for a, _ in r[5]], r[9]) for r in rows) + " *)\n")
     return "".join(out)
 
 
